@@ -69,6 +69,9 @@ type Server struct {
 	Ex        *executor.Executor
 	H         *handler.Server
 	recovered atomic.Int32
+	// StockRecover: the counting RecoverFunc hands over to graphql.DefaultRecover, so that the
+	// stock message ("internal system error") is what the client sees
+	StockRecover bool
 }
 
 // NewServer builds a server of variant v; plan can be swapped between requests via s.U.Plan.
@@ -78,6 +81,9 @@ func NewServer(rc *core.RunCtx, v *uni.Variant, plan *refexec.Plan) *Server {
 	rec := func(ctx context.Context, err any) error {
 		s.recovered.Add(1)
 		rc.W.Logf("recover", "", "%v", err)
+		if s.StockRecover {
+			return graphql.DefaultRecover(ctx, err)
+		}
 		return fmt.Errorf("recovered:%v", err)
 	}
 	s.Ex = executor.New(s.U.ES)
@@ -103,26 +109,27 @@ type Payload struct {
 
 // Out is what one execution produced.
 type Out struct {
-	GateErrs   gqlerror.List // CreateOperationContext errors
-	Payloads   []*Payload
-	Done       bool // response function returned nil / single payload taken
-	Stuck      bool
-	StuckSite  string
-	StuckDump  string
-	Recovered  int
-	HTTPStatus int
-	HTTPBody   string
-	Quiescent  int // quiescent points at which something was parked
-	MaxEnabled int
-	Sig        []string // released keys in order
-	Cancelled  bool
-	MutOrder   []string // root keys in order of first activity
-	MutOverlap string   // non-empty: description of a serial-execution violation
-	Leaks      []core.Goroutine
-	Doc        *ast.QueryDocument
-	Operation  *ast.OperationDefinition
-	Vars       map[string]any
-	U          *uni.Uni
+	GateErrs     gqlerror.List // CreateOperationContext errors
+	Payloads     []*Payload
+	Done         bool // response function returned nil / single payload taken
+	Stuck        bool
+	StuckSite    string
+	StuckDump    string
+	Recovered    int
+	StockRecover bool // panics are reported with gqlgen's stock message
+	HTTPStatus   int
+	HTTPBody     string
+	Quiescent    int // quiescent points at which something was parked
+	MaxEnabled   int
+	Sig          []string // released keys in order
+	Cancelled    bool
+	MutOrder     []string // root keys in order of first activity
+	MutOverlap   string   // non-empty: description of a serial-execution violation
+	Leaks        []core.Goroutine
+	Doc          *ast.QueryDocument
+	Operation    *ast.OperationDefinition
+	Vars         map[string]any
+	U            *uni.Uni
 }
 
 func convErrs(l gqlerror.List) []refexec.Err {
@@ -390,6 +397,7 @@ func Execute(rc *core.RunCtx, cfg Cfg) *Out {
 	out.Payloads = append([]*Payload(nil), payloads...)
 	pmu.Unlock()
 	out.Recovered = int(srv.recovered.Load() - rec0)
+	out.StockRecover = srv.StockRecover
 	if cfg.ViaHTTP && finished {
 		out.Payloads = []*Payload{httpPayload(out.HTTPBody)}
 	}
